@@ -7,11 +7,9 @@ import (
 	// registers google.api.http, HttpBody and the well-known types in the global registry
 	_ "google.golang.org/genproto/googleapis/api/annotations"
 	_ "google.golang.org/genproto/googleapis/api/httpbody"
-	"google.golang.org/protobuf/encoding/prototext"
 	"google.golang.org/protobuf/reflect/protodesc"
 	"google.golang.org/protobuf/reflect/protoreflect"
 	"google.golang.org/protobuf/reflect/protoregistry"
-	"google.golang.org/protobuf/types/descriptorpb"
 	_ "google.golang.org/protobuf/types/known/anypb"
 	_ "google.golang.org/protobuf/types/known/durationpb"
 	_ "google.golang.org/protobuf/types/known/emptypb"
@@ -117,11 +115,7 @@ var (
 
 func verifSchema() protoreflect.FileDescriptor {
 	schemaOnce.Do(func() {
-		var fdp descriptorpb.FileDescriptorProto
-		if err := prototext.Unmarshal([]byte(schemaText), &fdp); err != nil {
-			panic(fmt.Errorf("schema text: %w", err))
-		}
-		fd, err := protodesc.NewFile(&fdp, protoregistry.GlobalFiles)
+		fd, err := protodesc.NewFile(schemaProto(), protoregistry.GlobalFiles)
 		if err != nil {
 			panic(fmt.Errorf("schema: %w", err))
 		}
